@@ -1,5 +1,5 @@
 # replay of a bounded stand-in violation (C04): re-run native/c04_reorder.py
 import sys
-print("optimize [Sgate(0.3), Sgate(0.1).H, Rgate(0.2), Rgate(0.5).H]: the optimised program ['Dgate(0.2, 0) | (q[0])', 'Sgate(0.4, 0) | (q[0])', 'Rgate(0.7) | (q[0])'] prepares a different state (moments [0.2051, 1.1865, 0.2628, 0.5194, 0.1727, 1.4884, 0.1867, 0.4024] vs [0.3129, 0.7421, 0.1187, 1.384, -0.0968, 1.4201, 0.0673, 0.1023])")
+print("list_to_DAG(['R0', 'R0', 'R0']): no path from #1 R0 to #2 R0 although they share a mode / measured parameter")
 print('REPLAY-VIOLATION')
 sys.exit(1)
